@@ -322,6 +322,6 @@ func TestC08(t *testing.T) {
 			"callbacks are awaited with a barrier transaction (its commit action) and a bounded poll for asynchronous listeners; timing never decides a verdict except 'not delivered within 5 s'",
 			"for an extended child store, events on the child store for parent entities without extended data are not asserted either way"},
 		Gen: genC08, Run: runC08,
-		QuickChecks: 300, ThoroughFactor: 20,
+		QuickChecks: 600, ThoroughFactor: 10,
 	})
 }
